@@ -2,11 +2,21 @@ import KyupyVerif.Proofs.WaveCircuit
 import KyupyVerif.Proofs.WaveMono
 import KyupyVerif.Proofs.WaveMember
 import KyupyVerif.Proofs.WaveAffine
+import KyupyVerif.Proofs.WaveMemCirc
+import KyupyVerif.Proofs.WaveMemDemo
+import KyupyVerif.Proofs.Capture
 /-! # C04 — transitions stay inside the static-timing window and move rigidly with inputs
 
 Model: `Wave.waveEval` / `Wave.simWave` (transcription of `_wave_eval`, tied by the correspondence of C03).
 Proved here for every op program: (1) the static-timing window, (2) strict monotonicity for polarity-
-independent delays, (3) rigid motion under `t ↦ k·t + s` (shift, positive-integer scaling incl. powers of two). -/
+independent delays, (3) rigid motion under `t ↦ k·t + s` (shift, positive-integer scaling incl. powers of two).
+
+**Memory level** (last section): the same three statements for what the REAL memory layout holds in the region of
+every output slot after a propagation (`sta_window_mem`, `mono_timestamps_mem`, `rigid_motion_mem`: any map the certificate
+`MapIn.check` accepts, `c_caps_min ≥ 4`, any implementation of the evaluator calls honouring `Wave.WaveStep`, any
+level-respecting order — see the header of Props/C03.lean), incl. the captured earliest-arrival / latest-stabilisation
+entries `s[4]`, `s[5]`; `wave_timing_all_circuits`: for the tables of the `SimOps` model of every circuit (certificate =
+theorem `C08.simops_map_accepted`). -/
 namespace KV.C04
 open KV KV.Sig KV.Wave
 
@@ -249,5 +259,157 @@ example :
 example : (waveSem ⟨fun _ _ _ => 1, fun _ => 4⟩ ⟨0x7777, 7, [0, 1, 9, 9]⟩
     [(⟨[T.tmin], T.tmax⟩ : Wv).aff 1 7, (⟨[T.fin 3], T.tmax⟩ : Wv).aff 1 7, Wv.empty, Wv.empty])
     = (⟨[T.tmin, T.fin 4], T.tmax⟩ : Wv).aff 1 7 := by decide +kernel
+
+/-! ## memory level: the three statements for the region of every output slot of the real memory layout -/
+open KV.MapSound
+
+/-- an extremal finite entry of a well-formed waveform inside a window lies in the window -/
+theorem port_entry_in_window {w : Wv} {win : Win} (hok : w.ok) (hw : Within w win) {e : T}
+    (he : e ∈ w.ents.filter (· ≠ T.tmin)) : ∃ t lo hi, e = T.fin t ∧ win = some (lo, hi) ∧ lo ≤ t ∧ t ≤ hi := by
+  obtain ⟨hm, hne⟩ := List.mem_filter.1 he
+  have hne : e ≠ T.tmin := by simpa using hne
+  rcases hok.1.2 e hm with h | h
+  · exact absurd h hne
+  · cases e with
+    | fin t =>
+      obtain ⟨lo, hi, h1, h2, h3⟩ := hw t hm
+      exact ⟨t, lo, hi, rfl, h1, h2, h3⟩
+    | tmin => simp [T.isFin] at h
+    | tmax => simp [T.isFin] at h
+    | tovl => simp [T.isFin] at h
+
+/-- **(1m) static-timing window on memory.** Accepted map, `c_caps_min ≥ 4`, delays ≥ 0; `win l` a window for the input
+    waveform of every signal `l` of the stimulus. After ANY propagation the waveform found in the region of output slot `j`
+    has all its transitions inside the window static timing analysis computes for the captured signal, and the captured
+    earliest arrival `s[4]` / latest stabilisation `s[5]` are the "none" sentinels or lie in that window. -/
+theorem sta_window_mem (p : MapIn) (hc : p.check = none) (h4 : 4 ≤ p.capsMin) (delay : Nat → Bool → Bool → Int)
+    (hd : ∀ l a b, 0 ≤ delay l a b) (m0 m' : Int → T) (env0 : Nat → Wv) (win : Nat → Win)
+    (hst : Stimulus p m0 env0) (hpr : Propagated p delay m0 m') (hw : ∀ l, WRel (env0 l) (win l))
+    (j s : Nat) (hjs : (j, s) ∈ p.ppoSrcs) (time : T) :
+    let w := rdWave (p.loc j) (p.cap j) m'
+    let sta := execG (staSem (wcfg p delay)) (waveProg p) win s
+    Within w sta ∧
+    ((captureWv w time).eat = T.tmax ∨
+      ∃ t lo hi, (captureWv w time).eat = T.fin t ∧ sta = some (lo, hi) ∧ lo ≤ t ∧ t ≤ hi) ∧
+    ((captureWv w time).lst = T.tmin ∨
+      ∃ t lo hi, (captureWv w time).lst = T.fin t ∧ sta = some (lo, hi) ∧ lo ≤ t ∧ t ≤ hi) := by
+  intro w sta
+  have hg := wcfg_good p hc h4 delay hd
+  have key : WRel w sta := by
+    show WRel (rdWave _ _ m') _
+    rw [propagated_eq_sim p hc delay m0 m' env0 hst hpr j s hjs]
+    exact execG_rel_on WRel (waveSem (wcfg p delay)) (staSem (wcfg p delay)) (waveProg p)
+      (fun op hop xs ws hxy => gate_window (wcfg p delay) op hg.delay_nonneg (hg.cap_ge op hop) xs ws hxy) env0 win hw s
+  refine ⟨key.2, ?_, ?_⟩
+  · rw [capture_spec]
+    show specEat w = _ ∨ _
+    unfold specEat
+    rcases foldl_min_mem (w.ents.filter (· ≠ T.tmin)) T.tmax with h | h
+    · exact Or.inl h
+    · exact Or.inr (port_entry_in_window key.1 key.2 h)
+  · rw [capture_spec]
+    show specLst w = _ ∨ _
+    unfold specLst
+    rcases foldl_max_mem (w.ents.filter (· ≠ T.tmin)) T.tmin with h | h
+    · exact Or.inl h
+    · exact Or.inr (port_entry_in_window key.1 key.2 h)
+
+/-- **(2m) strictly increasing timestamps on memory**: polarity-independent delays, strictly increasing well-formed input
+    waveforms ⇒ the waveform in the region of every output slot is strictly increasing -/
+theorem mono_timestamps_mem (p : MapIn) (hc : p.check = none) (h4 : 4 ≤ p.capsMin) (delay : Nat → Bool → Bool → Int)
+    (hd : ∀ l a b, 0 ≤ delay l a b) (hpol : ∀ l a b, delay l a b = delay l false false) (m0 m' : Int → T)
+    (env0 : Nat → Wv) (hst : Stimulus p m0 env0) (hpr : Propagated p delay m0 m') (hm : ∀ l, MonoOk (env0 l))
+    (j s : Nat) (hjs : (j, s) ∈ p.ppoSrcs) : Incr (rdWave (p.loc j) (p.cap j) m').ents := by
+  rw [propagated_eq_sim p hc delay m0 m' env0 hst hpr j s hjs]
+  exact mono_timestamps (wcfg p delay) hpol (waveProg p) (wcfg_good p hc h4 delay hd) env0 hm s
+
+/-- **(3m) rigid motion on memory**: two propagations on the same map — any implementations, any level-respecting
+    orders — the second with all input waveforms moved by `t ↦ k·t + s` and all delays scaled by `k > 0`: the waveform in
+    the region of every output slot of the second memory is the moved waveform of the first -/
+theorem rigid_motion_mem (k s : Int) (hk : 0 < k) (p : MapIn) (hc : p.check = none) (h4 : 4 ≤ p.capsMin)
+    (delay : Nat → Bool → Bool → Int) (hd : ∀ l a b, 0 ≤ delay l a b) (m0 m1 m0' m1' : Int → T) (env0 : Nat → Wv)
+    (henv : ∀ l, (env0 l).ok) (hst : Stimulus p m0 env0) (hpr : Propagated p delay m0 m1)
+    (hst' : Stimulus p m0' (fun x => (env0 x).aff k s))
+    (hpr' : Propagated p (fun l a b => k * delay l a b) m0' m1')
+    (j c : Nat) (hjc : (j, c) ∈ p.ppoSrcs) :
+    rdWave (p.loc j) (p.cap j) m1' = (rdWave (p.loc j) (p.cap j) m1).aff k s := by
+  rw [propagated_eq_sim p hc delay m0 m1 env0 hst hpr j c hjc,
+    propagated_eq_sim p hc _ m0' m1' _ hst' hpr' j c hjc]
+  exact rigid_motion k s hk (wcfg p delay) (waveProg p) (wcfg_good p hc h4 delay hd) env0 henv c
+
+/-- **all circuits**: (1m)–(3m) for the map record the `SimOps` model builds for ANY well-formed netlist, topological order,
+    `strip_forks` / `c_reuse` setting, capacity vector and `c_caps_min ≥ 4` — the certificate hypothesis is discharged by
+    `C08.simops_map_accepted` -/
+theorem wave_timing_all_circuits (tbl : List PrefixRow) (net : Net) (order : List Nat) (strip : Bool)
+    (capsIn : Nat → Nat) (capsMin : Nat) (reuse : Bool) (p : MapIn)
+    (hp : p = simopsMap tbl net order strip capsIn capsMin reuse)
+    (hwf : net.wfB = true) (ho : orderOKB net order = true) (hf : strip = true → forksOKB net order = true)
+    (hr : readsDrivenB tbl net order = true) (h4 : 4 ≤ capsMin)
+    (delay : Nat → Bool → Bool → Int) (hd : ∀ l a b, 0 ≤ delay l a b) (m0 m1 : Int → T) (env0 : Nat → Wv)
+    (hst : Stimulus p m0 env0) (hpr : Propagated p delay m0 m1) (j c : Nat) (hjc : (j, c) ∈ p.ppoSrcs) :
+    (∀ win : Nat → Win, (∀ l, WRel (env0 l) (win l)) →
+      Within (rdWave (p.loc j) (p.cap j) m1) (execG (staSem (wcfg p delay)) (waveProg p) win c)) ∧
+    ((∀ l a b, delay l a b = delay l false false) → (∀ l, MonoOk (env0 l)) →
+      Incr (rdWave (p.loc j) (p.cap j) m1).ents) ∧
+    (∀ (k s : Int) (m0' m1' : Int → T), 0 < k → (∀ l, (env0 l).ok) → Stimulus p m0' (fun x => (env0 x).aff k s) →
+      Propagated p (fun l a b => k * delay l a b) m0' m1' →
+      rdWave (p.loc j) (p.cap j) m1' = (rdWave (p.loc j) (p.cap j) m1).aff k s) := by
+  have hc : p.check = none := by
+    rw [hp]; exact simopsMap_accepted tbl net order strip capsIn capsMin reuse hwf ho hf hr (by omega)
+  have h4' : 4 ≤ p.capsMin := by rw [hp]; exact h4
+  refine ⟨fun win hw => (sta_window_mem p hc h4' delay hd m0 m1 env0 win hst hpr hw j c hjc T.tmax).1,
+    fun hpol hm => mono_timestamps_mem p hc h4' delay hd hpol m0 m1 env0 hst hpr hm j c hjc,
+    fun k s m0' m1' hk henv hst' hpr' =>
+      rigid_motion_mem k s hk p hc h4' delay hd m0 m1 m0' m1' env0 henv hst hpr hst' hpr' j c hjc⟩
+
+/-! ### non-vacuity of the memory-level statements: `Wave.memDemo` (strip + reuse; `a` rises at 5, `b` constant 1) -/
+
+/-- (1m): with the window `[5, 5]` on input `a` and none elsewhere, static timing analysis gives `[8, 8]` for the captured
+    line, and the output region of the real layout holds transitions only there -/
+example (junk : Int → Nat → Wv → (Int → T) → Int → T) :
+    Within (rdWave 20 4 (memRun memDemo (waveRW junk) (waveRow (wcfg memDemo memDemoDelay) memDemo)
+      (schedOps memDemo [1, 0, 2, 3]) memDemoM0)) (some (8, 8)) := by
+  have hw : ∀ l, WRel (inputEnv memDemo memDemoM0 l) (if l = 9 then some (5, 5) else none) := by
+    apply memDemo_env_cases (fun l w => WRel w (if l = 9 then some (5, 5) else none))
+    · refine ⟨by simp only [Wv.ok, WfRem]; decide +kernel, ?_⟩
+      intro t ht
+      simp only [List.mem_singleton, T.fin.injEq] at ht
+      exact ⟨5, 5, rfl, by omega, by omega⟩
+    · refine ⟨by simp only [Wv.ok, WfRem]; decide +kernel, ?_⟩
+      intro t ht; simp at ht
+    · intro l _ _
+      exact ⟨Wv.empty_ok, fun t ht => by simp [Wv.empty] at ht⟩
+  have key := (sta_window_mem memDemo memDemo_check (by decide) memDemoDelay memDemoDelay_nonneg memDemoM0 _
+    (inputEnv memDemo memDemoM0) _ (stimulus_inputEnv _ _) (memDemo_propagated junk) hw 14 5 (by decide +kernel) T.tmax).1
+  have hloc : memDemo.loc 14 = 20 ∧ memDemo.cap 14 = 4 := by decide +kernel
+  have hsta : execG (staSem (wcfg memDemo memDemoDelay)) (waveProg memDemo) (fun l => if l = 9 then some (5, 5) else none) 5
+      = some (8, 8) := by decide +kernel
+  rw [hloc.1, hloc.2, hsta] at key
+  exact key
+
+/-- (2m), (3m): the hypotheses hold for the demo (delays are polarity independent, the input waveforms increasing; the
+    moved run starts from the moved memory, `stimulus_aff`) -/
+example (junk : Int → Nat → Wv → (Int → T) → Int → T) (k s : Int) (hk : 0 < k) (m1' : Int → T)
+    (hpr' : Propagated memDemo (fun l a b => k * memDemoDelay l a b) (fun a => (memDemoM0 a).aff k s) m1') :
+    Incr (rdWave 20 4 (memRun memDemo (waveRW junk) (waveRow (wcfg memDemo memDemoDelay) memDemo)
+      (schedOps memDemo [1, 0, 2, 3]) memDemoM0)).ents ∧
+    rdWave 20 4 m1' = ⟨[T.tmin, T.fin (k * 8 + s)], T.tmax⟩ := by
+  have hloc : memDemo.loc 14 = 20 ∧ memDemo.cap 14 = 4 := by decide +kernel
+  have hm : ∀ l, MonoOk (inputEnv memDemo memDemoM0 l) := by
+    apply memDemo_env_cases (fun _ w => MonoOk w)
+    · exact ⟨by simp only [Wv.ok, WfRem]; decide +kernel, by simp [Incr]⟩
+    · exact ⟨by simp only [Wv.ok, WfRem]; decide +kernel, by simp [Incr]⟩
+    · intro l _ _; exact ⟨Wv.empty_ok, by simp [Incr, Wv.empty]⟩
+  have h2 := mono_timestamps_mem memDemo memDemo_check (by decide) memDemoDelay memDemoDelay_nonneg (fun _ _ _ => rfl)
+    memDemoM0 _ (inputEnv memDemo memDemoM0) (stimulus_inputEnv _ _) (memDemo_propagated junk) hm 14 5 (by decide +kernel)
+  have h3 := rigid_motion_mem k s hk memDemo memDemo_check (by decide) memDemoDelay memDemoDelay_nonneg memDemoM0 _ _ m1'
+    (inputEnv memDemo memDemoM0) (inputEnv_ok _ _ memDemo_inputs) (stimulus_inputEnv _ _) (memDemo_propagated junk)
+    (stimulus_aff k s _ _ _ (stimulus_inputEnv _ _)) hpr' 14 5 (by decide +kernel)
+  have h1 := propagated_eq_sim memDemo memDemo_check memDemoDelay memDemoM0 _ _ (stimulus_inputEnv _ _)
+    (memDemo_propagated junk) 14 5 (by decide +kernel)
+  rw [hloc.1, hloc.2] at h2 h3 h1
+  refine ⟨h2, ?_⟩
+  rw [h3, h1, memDemo_sim]
+  rfl
 
 end KV.C04
